@@ -258,11 +258,14 @@ Section Sem.
     | None => s
     | Some (p, pol) => filter (fun f => Bool.eqb (fpred_eval p f) pol) s
     end.
+  Definition checked_getattrM (r : nat) (n : name) : M value :=
+    fun s => match getattr (s_heap s) r n with Some v => (s, Ok v) | None => (s, Raise PTypeCheckC) end.
   Fixpoint check_loop (vis : bool) (fs : list field) (r : nat) : M unit :=
     match fs with
     | [] => ret tt
     | f :: rest =>
-      bindM (getattrM r (f_name f)) (fun v =>
+      (* `if not hasattr(self, field.name): raise PedanticTypeCheckException(...)`: a field without value *)
+      bindM (checked_getattrM r (f_name f)) (fun v =>
       bindM (emit (ECheck (f_ann f) v)) (fun _ =>
       bindM get_heap (fun h =>
       match check vis h (f_ann f) v with Ok _ => check_loop vis rest r | Raise e => raise e end)))
